@@ -97,7 +97,8 @@ def isAsciiStr (s : Str) : Bool := s.all fun c => decide (c.toNat < 128)
 
 /-- the BibTeX domain has ASCII identifiers only: entry types, field names and roles are NAMEs of
 the `.bib` grammar (ASCII by its character table), keys are asked to be ASCII here (the `.bib`
-reader model of C01 compares keys through the ASCII lower-casing) -/
+reader compares keys through `Bib.keyFold` = `str.lower()`, which on ASCII keys is this ASCII
+lower-casing: `keyFold_ascii` in `Lemmas/BibWriteDb.lean`) -/
 def entryOkW (keys : List Str) (e : Entry) : Bool :=
   isName e.origType && !reserved.contains (lower e.origType) && e.type == lower e.origType &&
   keyOk false e.key && isAsciiStr e.key && !keys.contains (lower e.key) &&
